@@ -172,7 +172,7 @@ def _run_pda(cond, raw, trans, finals, names, stack):
 def c13_pda_m2(t: T10, m: int, finals: int, k: int, names: int, stack: int) -> bool:
     """
     pre: pinned(m=m, finals=finals, k=k, names=names, stack=stack, f0=t[0], i0=t[1], p0=t[2], c0=t[4])
-    pre: 0 <= m <= 2 and 0 <= finals < 4 and 1 <= k <= 2 and 0 <= names < 4 and 0 <= stack < 3
+    pre: ((0 <= m) & (m <= 2)) & ((0 <= finals) & (finals < 4)) & ((1 <= k) & (k <= 2)) & ((0 <= names) & (names < 4)) & ((0 <= stack) & (stack < 3))
     pre: pda_canonical(t, m, 2, k)
     post: _
     """
@@ -186,9 +186,9 @@ def c13_pda_m2(t: T10, m: int, finals: int, k: int, names: int, stack: int) -> b
 def c13_pda_m3(t: T15, m: int, finals: int) -> bool:
     """
     pre: pinned(finals=finals, i0=t[1], c0=t[4], f1=t[5], i1=t[6])
-    pre: m == 3 and 0 <= finals < 4
+    pre: (m == 3) & ((0 <= finals) & (finals < 4))
     pre: pda_canonical(t, m, 2, 1)
-    pre: t[0] == 0 and t[2] == 0
+    pre: (t[0] == 0) & (t[2] == 0)
     post: _
     """
     raw = (t, m, finals)
